@@ -38,6 +38,9 @@ def check(repo, col, tier):
     _write_back(repo, col)
     _pair(repo, col)
     _tojax(repo, col)
+    col.rule("R-C10-groups", "a group that shares a trainable is extended on the base's registry, never on a view's filtered copy", 3)
+    from . import c11
+    c11._basestate(repo, col, "R-C10-groups")
     col.rule("R-C10-init", "the default initial value of a trainable ignores the padded dummy entries", 1)
     _init_value(repo, col)
     col.rule("R-C10-derived", "derived parameters are computed from the overridden values", 1)
@@ -450,15 +453,58 @@ def _tojax(repo, col):
         col.check(fi.node.body.index(top[0]) < first_use, R, fi, "the rebuild precedes the assembly of parameters and states", "",
                   "jaxnodes are rebuilt after the parameters were assembled", node=top[0])
     tj = repo.method("Module", "to_jax")
-    loops = [n for n in ast.walk(tj.node) if isinstance(n, ast.For)]
-    iters = [unparse(n.iter).replace(" ", "") for n in loops]
-    ok = any(i.startswith("self.base.nodes.to_dict(") and i.endswith(".items()") for i in iters)
-    col.check(ok, R, tj, "to_jax copies every column of the node table", "loop over nodes.to_dict().items()",
-              f"to_jax no longer iterates all node columns (loops over {iters})", node=tj.node)
-    ok = "enumerate(self.base.synapses)" in iters and any(i.endswith(".synapse_params") for i in iters) and \
-        any(i.endswith(".synapse_states") for i in iters)
-    col.check(ok, R, tj, "to_jax copies every parameter and state of every synapse type", "",
-              f"to_jax no longer covers all synapse parameters/states (loops over {iters})", node=tj.node)
+    tex = idx.expander(repo, tj)
+    from sa.terms import fuse_comprehensions
+
+    def whole(t):
+        """the collections that `t` enumerates completely: X, X.keys(), list(X), [*X, *Y], X + Y"""
+        if t.op == "mcall" and t.name in ("keys", "copy") and len(t.args) == 1:
+            return whole(t.args[0])
+        if t.op == "call" and t.name in ("list", "tuple", "sorted", "set") and len(t.args) == 1:
+            return whole(t.args[0])
+        if t.op in ("list", "tuple"):
+            out = []
+            for a_ in t.args:
+                if a_.op != "star":
+                    return []
+                out += whole(a_.args[0])
+            return out
+        if t.op == "binop" and t.name == "+":
+            return whole(t.args[0]) + whole(t.args[1])
+        return [t]
+
+    def unguarded(s_):
+        return all(g_.op == "loop" for g_ in s_.guards)
+    nst = [s_ for s_ in tex.stores if s_.kind == "sub" and s_.base.op == "attr" and s_.base.name == "jaxnodes"]
+    ok, seen_ = False, []
+    for s_ in nst:
+        k = fuse_comprehensions(s_.key)
+        seen_.append(k.short(60))
+        it = k.args[0] if (k.op == "item" and k.name == 0 and k.args[0].op == "elem") else (k if k.op == "elem" else None)
+        if it is None or not unguarded(s_):
+            continue
+        src = it.args[0]
+        if k.op == "item":
+            full = src.op == "mcall" and src.name == "items" and T.find(src.args[0], lambda x: x.op == "attr" and x.name == "nodes") is not None
+        else:
+            full = any(T.find(w, lambda x: x.op == "attr" and x.name == "nodes") is not None and
+                       (w.op == "mcall" and w.name == "to_dict" or w.op == "attr" and w.name in ("columns", "nodes")) for w in whole(src))
+        ok = ok or full
+    col.check(ok, R, tj, "to_jax copies every column of the node table", "one jaxnodes entry per column of base.nodes, unconditionally",
+              f"to_jax no longer copies all node columns (entries written: {seen_})", node=tj.node)
+    est = [s_ for s_ in tex.stores if s_.kind == "sub" and s_.base.op == "attr" and s_.base.name == "jaxedges"]
+    covered = set()
+    for s_ in est:
+        k = fuse_comprehensions(s_.key)
+        if k.op != "elem" or not unguarded(s_):
+            continue
+        for w in whole(k.args[0]):
+            if w.op == "attr" and w.name in ("synapse_params", "synapse_states") and \
+                    T.find(w.args[0], lambda x: x.op == "elem" and T.find(x, lambda y: y.op == "attr" and y.name == "synapses") is not None) is not None:
+                covered.add(w.name)
+    col.check(covered == {"synapse_params", "synapse_states"}, R, tj, "to_jax copies every parameter and state of every synapse type",
+              "one jaxedges entry per synapse_params / synapse_states key of each synapse, unconditionally",
+              f"to_jax no longer covers all synapse parameters and states (covered: {sorted(covered)})", node=tj.node)
     g = repo.method("Module", "_get_states_from_nodes_and_edges")
     col.check("self.base.to_jax()" in unparse(g.node), R, g, "_get_states_from_nodes_and_edges rebuilds before reading", "",
               "states are read from a stale jaxnodes", node=g.node)
